@@ -25,8 +25,13 @@ var c16Elems = []struct {
 	{"pInner", "*Inner", true},
 	{"iface", "interface{}", true},
 	{"Namer", "Namer", false},
-	{"sint", "[]int", false},
+	{"sint", "[]int", true},
 	{"mapsi", "map[string]int", false},
+	{"sInner", "[]Inner", false},
+	{"mapsInner", "map[string]Inner", false},
+	{"func", "func() int", false},
+	{"arr", "[2]int", false},
+	{"anon", "struct{ X int }", false},
 	{"pint", "*int", false},
 	{"Inner2", "Inner2", false},
 }
@@ -35,6 +40,7 @@ type c16Meta struct {
 	Src, Dst string
 	Named    int // 0 none, 1 source field is a named slice type, 2 destination, 3 both
 	Typecast int
+	Getter   int // 1: the source offers the slices through getters (:getter), not fields
 }
 
 func familyC16(thorough bool) []*scen.Cell {
@@ -48,7 +54,12 @@ func familyC16(thorough bool) []*scen.Cell {
 				if named > 0 && !(es.id == ed.id || (es.id == "int" && ed.id == "MyInt") || (es.id == "MyInt" && ed.id == "int")) {
 					continue
 				}
-				for tcast := 0; tcast < 2; tcast++ {
+				for tcast := 0; tcast < 4; tcast++ {
+					getter := tcast / 2
+					tcast := tcast % 2
+					if getter == 1 && named != 0 {
+						continue
+					}
 					st, dt := "[]"+es.expr, "[]"+ed.expr
 					decl := scen.TypePrelude + "\n"
 					if named&1 == 1 {
@@ -59,16 +70,20 @@ func familyC16(thorough bool) []*scen.Cell {
 						decl += "type DL " + dt + "\n\n"
 						dt = "DL"
 					}
-					decl += "type S struct {\n\tF " + st + "\n\tF2 " + st + "\n\tK int\n}\n\ntype D struct {\n\tF " + dt + "\n\tF2 " + dt + "\n\tK int\n}\n"
+					if getter == 1 {
+						decl += "type S struct {\n\tFv " + st + "\n\tF2v " + st + "\n\tK int\n}\n\nfunc (s *S) F() " + st + "  { return s.Fv }\nfunc (s *S) F2() " + st + " { return s.F2v }\n\ntype D struct {\n\tF " + dt + "\n\tF2 " + dt + "\n\tK int\n}\n"
+					} else {
+						decl += "type S struct {\n\tF " + st + "\n\tF2 " + st + "\n\tK int\n}\n\ntype D struct {\n\tF " + dt + "\n\tF2 " + dt + "\n\tK int\n}\n"
+					}
 					setup := scen.SetupFile(true, decl, nil, []scen.MethodDecl{
-						{Notations: scen.Toggles(0, 0, 0, tcast, 0), Sig: "Conv(*S) *D"},
-						{Notations: append([]string{":style arg"}, scen.Toggles(0, 0, 0, tcast, 0)...), Sig: "Fill(*S) *D"},
+						{Notations: scen.Toggles(0, getter, 0, tcast, 0), Sig: "Conv(*S) *D"},
+						{Notations: append([]string{":style arg"}, scen.Toggles(0, getter, 0, tcast, 0)...), Sig: "Fill(*S) *D"},
 					})
 					cells = append(cells, &scen.Cell{
-						ID:     fmt.Sprintf("c16_%s_%s_%d_%d", es.id, ed.id, named, tcast),
+						ID:     fmt.Sprintf("c16_%s_%s_%d_%d_%d", es.id, ed.id, named, tcast, getter),
 						Family: "C16-slices",
 						Files:  map[string]string{"setup.go": setup},
-						Meta:   c16Meta{es.id, ed.id, named, tcast},
+						Meta:   c16Meta{es.id, ed.id, named, tcast, getter},
 					})
 				}
 			}
@@ -81,7 +96,7 @@ func init() {
 	register("C16", "model_checking", func(e *Env) {
 		th := e.Rep.Thorough()
 		cells := familyC16(th)
-		e.Rep.Rule("element pairs E_src x E_dst over {int, int64, string, MyInt, Status, ext.EInt, Inner, *Inner, interface{}, Namer, []int, map[string]int, *int, Inner2} (quick: 8x8) x {unnamed, named slice type on the source / destination / both sides} x :typecast {off, on} x style {return, arg}; " +
+		e.Rep.Rule("element pairs E_src x E_dst over {int, int64, string, MyInt, Status, ext.EInt, Inner, *Inner, interface{}, Namer, []int, map[string]int, *int, Inner2} (quick: 8x8) x {unnamed, named slice type on the source / destination / both sides} x :typecast {off, on} x source offered by {field, getter under :getter} x style {return, arg}; " +
 			"static: assigned iff elements assignable, or convertible and :typecast (reference ladder), no element conversion without :typecast; dynamic (reflect driver): for every slice value {nil, [a,b] cap 4, empty non-nil, [a], [a,b,c], two fields sharing one backing array} x destination-before {zero, dirty}: " +
 			"same length, element i equals the (converted) source element, for len > 0 the backing arrays differ and a write through either slice is invisible through the other, nil source => destination is its previous value or nil; " +
 			"non-trivial = accepted element pair executed with a non-empty source slice")
